@@ -94,3 +94,58 @@ Theorem C13_counts_true : forall m s, reach m s ->
     length (withdrawn s).
 Proof. exact ms_counts_true. Qed.
 Print Assumptions C13_counts_true.
+
+(* ---------- additions after the independent audit (hunt/audit.md C13 4.1 - 4.3) ---------- *)
+
+(* recorded decision (observation O-own-close): a task blocked on a handle that someone else closes is not woken while
+   the PEER side is open - every send is refused, and only the close of the send side releases it (EndOfStream) *)
+Theorem C13_blocked_on_own_closed_side : exists m ops t e,
+  let s := final step (init m) ops in
+  open_recv s = 0 /\ phase_of s t = RecvWait e /\ fut s e = FPending /\ open_send s > 0 /\
+  In (e, t) (receivers s) /\
+  snd (step s (SendNowait 2 0 1)) = RBroken /\ snd (step s (Resume t)) = RRejected /\
+  snd (step (fst (step s (Close 0))) (Resume t)) = REndOfStream.
+Proof. exact ms_blocked_on_own_closed_side. Qed.
+Print Assumptions C13_blocked_on_own_closed_side.
+
+Theorem C13_sender_blocked_on_own_closed_side : exists m ops t e x,
+  let s := final step (init m) ops in
+  open_send s = 0 /\ phase_of s t = SendWait e x /\ fut s e = FPending /\ open_recv s > 0 /\
+  snd (step s (RecvNowait 2 1)) = RItem x /\
+  snd (step (fst (step s (RecvNowait 2 1))) (Resume t)) = RDone.
+Proof. exact ms_sender_blocked_on_own_closed_side. Qed.
+Print Assumptions C13_sender_blocked_on_own_closed_side.
+
+(* exact characterisation of when a receive / a send WAITS (blocks, resp. WouldBlock for the nowait call) *)
+Theorem C13_recv_blocks_iff : forall s o h, recv_attempt s o h -> hclosed s h = false ->
+  ((snd (step s o) = RBlocked \/ snd (step s o) = RWouldBlock) <->
+   (open_send s > 0 /\ buffer s = [] /\ senders s = [])) /\
+  (snd (step s o) = RBlocked -> exists t, o = Resume t) /\
+  (snd (step s o) = RWouldBlock -> exists t, o = RecvNowait t h).
+Proof. exact ms_recv_blocks_iff. Qed.
+Print Assumptions C13_recv_blocks_iff.
+
+Theorem C13_send_blocks_iff : forall m s o h, reach m s -> send_attempt s o h -> hclosed s h = false ->
+  ((snd (step s o) = RBlocked \/ snd (step s o) = RWouldBlock) <->
+   (open_recv s > 0 /\ (forall e t, In (e, t) (receivers s) -> has_pending s t = true) /\
+    xlt (length (buffer s)) (maxb s) = false)) /\
+  (snd (step s o) = RBlocked -> exists t, o = Resume t) /\
+  (snd (step s o) = RWouldBlock -> exists t x, o = SendNowait t h x).
+Proof. exact ms_send_blocks_iff. Qed.
+Print Assumptions C13_send_blocks_iff.
+
+(* trace level: once the last clone of a side is closed, resuming every blocked peer (once each, any order, any
+   superset) leaves nobody in a wait phase on the other side *)
+Theorem C13_last_send_close_drains_receivers : forall m s ts, reach m s -> open_send s = 0 ->
+  (forall t e, phase_of s t = RecvWait e -> In t ts) ->
+  let s' := final step s (map Resume ts) in
+  open_send s' = 0 /\ forall t e, phase_of s' t <> RecvWait e.
+Proof. exact ms_last_send_close_drains_receivers. Qed.
+Print Assumptions C13_last_send_close_drains_receivers.
+
+Theorem C13_last_recv_close_drains_senders : forall m s ts, reach m s -> open_recv s = 0 ->
+  (forall t e x, phase_of s t = SendWait e x -> In t ts) ->
+  let s' := final step s (map Resume ts) in
+  open_recv s' = 0 /\ forall t e x, phase_of s' t <> SendWait e x.
+Proof. exact ms_last_recv_close_drains_senders. Qed.
+Print Assumptions C13_last_recv_close_drains_senders.
